@@ -1,54 +1,19 @@
 /-
-`ScaleX` / `ScaleY` of src/libvncserver/scale.c for a scaled client:
+`ScaleX` / `ScaleY` of src/libvncserver/scale.c for a scaled client (`from != to`):
 
-    return ((int)(((double) x / (double)from->width) * (double)to->width ));
+    return ((int)(((int64_t) x * (int64_t)to->width) / (int64_t)from->width));
 
-The expression is two IEEE-754 binary64 operations (a correctly rounded division, a correctly
-rounded multiplication) followed by truncation.  It is modelled EXACTLY with natural-number
-arithmetic: `rn53 num den` is round-to-nearest-even of the positive rational `num/den` to 53
-significant bits.  For the operand range of the protocol (x, widths < 2^16) no subnormal, overflow
-or NaN can occur, so this is the whole of IEEE semantics that matters.  The correspondence run
-compares `scaleCoord` with the real `ScaleX`/`ScaleY` exhaustively over x = 0..65535 for many
-(from, to) pairs (op `scalex`/`scaley`).
-
-The result is NOT always ⌊x·to/from⌋: e.g. from = 49, to = 98, x = 1 gives 1, not 2, because
-RN(1/49)·98 < 2.  This is faithfully reproduced.
+Exact integer arithmetic (since /repo commit b3494ad "ScaleX/ScaleY map coordinates with integer
+arithmetic"; the earlier double expression `(x / from) * to` truncated exact quotients downwards,
+e.g. from = 49, to = 98, x = 1 gave 1).  For protocol operands (x, widths < 2^16) the product is
+below 2^32, far inside int64_t; the final cast to `int` is value-preserving as long as the quotient
+is below 2^31, which `Props/C06.lean: scale_result_fits_int` proves for every scaled screen the
+server can create (scale factor is one byte).  The correspondence run compares `scaleCoord` with the
+real `ScaleX`/`ScaleY` exhaustively over x = 0..65535 for many (from, to) pairs (op `scalex`).
 -/
 namespace VncModel.Input
 
-/-- value `m / 2^sh` (sh may be negative) -/
-structure Dy where
-  m : Nat
-  sh : Int
-  deriving Repr, DecidableEq
-
-/-- round-to-nearest-even of `num/den` (`den > 0`) to 53 significant bits -/
-def rn53 (num den : Nat) : Dy :=
-  if num = 0 then ⟨0, 0⟩ else
-  -- E = ⌊log2(num/den)⌋ is d or d-1 where d = log2 num - log2 den
-  let d : Int := (num.log2 : Int) - (den.log2 : Int)
-  let ge : Bool := if d ≥ 0 then num ≥ den * 2 ^ d.toNat else num * 2 ^ (-d).toNat ≥ den
-  let e : Int := if ge then d else d - 1
-  let sh : Int := 52 - e
-  let n := if sh ≥ 0 then num * 2 ^ sh.toNat else num
-  let dd := if sh ≥ 0 then den else den * 2 ^ (-sh).toNat
-  let q := n / dd
-  let r := n % dd
-  let q' := if 2 * r > dd ∨ (2 * r = dd ∧ q % 2 = 1) then q + 1 else q
-  ⟨q', sh⟩
-
-/-- ⌊m / 2^sh⌋ -/
-def Dy.floor (v : Dy) : Nat :=
-  if v.sh ≥ 0 then v.m / 2 ^ v.sh.toNat else v.m * 2 ^ (-v.sh).toNat
-
-/-- RN(v · t) for a natural number t -/
-def Dy.mulNat (v : Dy) (t : Nat) : Dy :=
-  let p := v.m * t
-  let r := if v.sh ≥ 0 then rn53 p (2 ^ v.sh.toNat) else rn53 (p * 2 ^ (-v.sh).toNat) 1
-  r
-
-/-- `(int)(((double)x / (double)from) * (double)to)` for `from > 0` -/
-def scaleCoord (x from_ to : Nat) : Nat :=
-  ((rn53 x from_).mulNat to).floor
+/-- `(int)(((int64_t)x * to) / from)` for `from > 0` -/
+def scaleCoord (x from_ to : Nat) : Nat := x * to / from_
 
 end VncModel.Input
